@@ -51,6 +51,71 @@ Proof.
   destruct (b =? 0) eqn:E; [apply Z.eqb_eq in E; contradiction|reflexivity].
 Qed.
 
+(* --- constraint summary ------------------------------------------------------------------------------ *)
+Lemma cne_ff_ceq : forall x y, cmp3 CNe x y = FF -> cmp3 CEq x y = TT.
+Proof.
+  intros [x|] [y|]; simpl; try discriminate. unfold cmp3. destruct (vcmp x y) as [[]|]; simpl; congruence.
+Qed.
+
+Lemma eq_constraint_sound : forall rho iskey inverted l c v,
+  eq_constraint false iskey inverted l = Some (c, v) ->
+  (if inverted then tri_not (leaf_val rho l) else leaf_val rho l) = TT ->
+  cmp3 CEq (rho c) (Some v) = TT \/ cmp3 CEq (Some v) (rho c) = TT.
+Proof.
+  intros rho iskey inverted l c v He Hv. destruct l; try discriminate. simpl in He.
+  assert (L : leaf_val rho (LCmp o a b) = cmp3 o (seval rho (sc a)) (seval rho (sc b))).
+  { unfold leaf_val; simpl. apply tri_nv_id. }
+  rewrite L in Hv.
+  assert (E : cmp3 CEq (seval rho (sc a)) (seval rho (sc b)) = TT).
+  { destruct inverted.
+    - destruct o; try discriminate. apply cne_ff_ceq. destruct (cmp3 CNe _ _); simpl in Hv; congruence.
+    - destruct o; try discriminate. assumption. }
+  destruct inverted; destruct o; try discriminate;
+    (destruct a; try discriminate; destruct b; try discriminate;
+     match type of He with (if ?k then _ else _) = _ => destruct k end; try discriminate;
+     inversion He; subst; simpl in E; auto).
+Qed.
+
+Lemma summary_sound_p : forall rho iskey tbl p c v,
+  eval3 (tval rho tbl) p = TT -> In (c, v) (summary iskey tbl p) ->
+  cmp3 CEq (rho c) (Some v) = TT \/ cmp3 CEq (Some v) (rho c) = TT.
+Proof.
+  intros rho iskey tbl. induction p as [|g p IH]; intros c v Hev Hin; [contradiction|].
+  rewrite eval3_cons in Hev.
+  assert (any3 (tval rho tbl) g = TT /\ eval3 (tval rho tbl) p = TT) as [Hg Hp].
+  { destruct (any3 (tval rho tbl) g), (eval3 (tval rho tbl) p); simpl in Hev; try discriminate; auto. }
+  unfold summary, summary_g in Hin. simpl in Hin. apply in_app_or in Hin as [Hin|Hin].
+  - destruct g as [|[a|a] [|? ?]]; try contradiction.
+    + destruct (eq_constraint false iskey false _) as [[c' v']|] eqn:E; [|contradiction].
+      destruct Hin as [Hin|[]]. inversion Hin; subst.
+      eapply eq_constraint_sound; [exact E|]. simpl in Hg. rewrite tri_or_FF_r in Hg. exact Hg.
+    + destruct (eq_constraint false iskey true _) as [[c' v']|] eqn:E; [|contradiction].
+      destruct Hin as [Hin|[]]. inversion Hin; subst.
+      eapply eq_constraint_sound; [exact E|]. simpl in Hg. rewrite tri_or_FF_r in Hg. exact Hg.
+  - apply IH; assumption.
+Qed.
+
+(* through the whole path: on every row the WHERE clause keeps, each extracted constraint holds *)
+Lemma where_summary_sound_p : forall rho iskey e q c v,
+  compile e = Some q -> keeps rho q = true -> In (c, v) (where_summary iskey e) ->
+  cmp3 CEq (rho c) (Some v) = TT \/ cmp3 CEq (Some v) (rho c) = TT.
+Proof.
+  intros rho iskey e q c v Hc Hk Hin. unfold compile, compile_g in Hc. unfold where_summary, where_summary_g in Hin.
+  destruct (conv e) as [f|]; [|discriminate]. destruct (number f []) as [fm tbl]. inversion Hc; subst q.
+  apply keeps_iff_true in Hk. rewrite cnf_sql_eval in Hk. eapply summary_sound_p; eassumption.
+Qed.
+
+(* the variant that also reads an inverted `==` as a constraint (seeded change C05a) is unsound:
+   NOT (instrument = 'Cam') on a row of instrument 'Oth' *)
+Definition e_notgov : expr := ENot (ECmp CEq (ECol 0%N TyStr) (ELit (VStr "Cam"))).
+Definition rho_oth : env := fun c => if N.eqb c 0 then Some (VStr "Oth") else None.
+Lemma summary_bad_refuted_p :
+  match compile e_notgov with Some q => keeps rho_oth q = true | None => False end /\
+  where_summary_g true (fun _ => true) e_notgov = [(0%N, VStr "Cam")] /\
+  where_summary (fun _ => true) e_notgov = [] /\
+  cmp3 CEq (rho_oth 0%N) (Some (VStr "Cam")) = FF.
+Proof. vm_compute. repeat split; reflexivity. Qed.
+
 (* --- witnesses ------------------------------------------------------------------------------------ *)
 Definition rho_det (d : Z) : env := fun c => if N.eqb c 1 then Some (VInt d) else None.
 Definition e_stride : expr := EIn (EArith OSub (ECol 1%N TyInt) (ELit (VInt 10))) [IRange (-3) 3 (Some 2)] false.
